@@ -74,6 +74,11 @@ def gen(rng, tier):
             if tier == "quick" and rng.random() < 0.6: continue
             add("totpnow", [kn, kl, p, d, s, now, err], "k%d%s p%s d%s sel%s now%s err%d" % (kn, kl, "ok" if p > 0 else "bad", "ok" if 1 <= d <= 9 else "bad", s, "neg" if now < 0 else "pos", err))
             add("totpvalidnow", [kn, kl, p, d, s, now, err], "k%d%s p%s d%s sel%s now%s err%d" % (kn, kl, "ok" if p > 0 else "bad", "ok" if 1 <= d <= 9 else "bad", s, "neg" if now < 0 else "pos", err))
+    # the verdict is independent of the candidate token: out-of-range / extreme tokens with every kind of invalid argument
+    for (kn, kl), p, d, s, tok in itertools.product([(0, 5), (1, 5)], [30, 0, -1], [6, 0, 10], [0, 3, -1], [-1, 10 ** 6, 2 ** 31 - 1, -2 ** 31, 0]):
+        add("totpvalidat_tok", [kn, kl, p, d, s, tok], "k%d p%s d%s sel%s tok%s" % (kn, p, d, s, "in" if tok == 0 else "out"))
+        for now, err in [(59, 0), (-1, 1), (-5, 0), (59, 1)]:
+            add("totpvalidnow_tok", [kn, kl, p, d, s, now, err, tok], "k%d p%s d%s sel%s now%s err%d tok%s" % (kn, "ok" if p > 0 else "bad", "ok" if 1 <= d <= 9 else "bad", s, "neg" if now < 0 else "pos", err, "in" if tok == 0 else "out"))
     for dl in [0, 1, 3, 4, 5, 18, 19, 20, 32, 64]:
         for nib in range(16):
             add("hotpdg", [dl, nib], "len%d %s" % (dl, "short" if dl < nib + 4 else "ok"))
